@@ -53,6 +53,8 @@ func (c *concComp) Exec(t []string) (extra []string, out string, eff bool) {
 		return c.sigStorm(atoi("workers"), atoi("rounds"))
 	case "noderace":
 		return c.nodeRace(atoi("rounds"), atoi("peers"))
+	case "billrace":
+		return c.billRace(atoi("rounds"), int64(atoi("seed")))
 	}
 	return nil, "bad-op", false
 }
@@ -397,6 +399,7 @@ func (c *concComp) gen(r *rand.Rand, idx int, emit func(string), sameNode bool) 
 		emit(fmt.Sprintf("nonces workers=%d rounds=%d", 6+r.Intn(11), 300+r.Intn(300)))
 	case 2:
 		emit(fmt.Sprintf("pool clients=%d hosts=%d seed=%d", 1+r.Intn(4), 1+r.Intn(4), r.Intn(1000)))
+		emit(fmt.Sprintf("billrace rounds=%d seed=%d", 150+r.Intn(150), r.Intn(1000)))
 	case 4:
 		emit(fmt.Sprintf("freshcredit rounds=%d seed=%d", 400+r.Intn(400), r.Intn(1000)))
 	case 8:
